@@ -7,7 +7,7 @@ from __future__ import annotations
 import logging
 from typing import TYPE_CHECKING, Any, TypedDict
 
-from pyopenapi_gen.core.http_status_codes import get_exception_class_name
+from pyopenapi_gen.core.http_status_codes import get_exception_class_name, is_error_code
 from pyopenapi_gen.core.writers.code_writer import CodeWriter
 from pyopenapi_gen.helpers.endpoint_utils import (
     _get_primary_response,
@@ -482,13 +482,32 @@ class EndpointResponseHandlerGenerator:
                                 writer.write_line(f"return cast({response_type}, {data_expr})")
                         else:
                             writer.write_line("return None")
-                else:
+                elif is_error_code(status_code_val):
                     # Error responses - use human-readable exception names
                     error_class_name = get_exception_class_name(status_code_val)
                     context.add_import(f"{context.core_package_name}", error_class_name)
                     writer.write_line(f"raise {error_class_name}(response=response)")
+                else:
+                    # Declared informational / redirect responses (1xx, 3xx): no alias class exists for them
+                    context.add_import(f"{context.core_package_name}.exceptions", "HTTPError")
+                    writer.write_line(
+                        'raise HTTPError(response=response, message="Unexpected status code", '
+                        "status_code=response.status_code)"
+                    )
 
                 writer.dedent()
+
+        # Undeclared error statuses raise the class-correct base (ClientError for 4xx, ServerError for 5xx),
+        # also when a transport hands a non-2xx response back instead of raising itself
+        for range_guard, range_class in (("400 <= status < 500", "ClientError"), ("500 <= status < 600", "ServerError")):
+            context.add_import(f"{context.core_package_name}.exceptions", range_class)
+            writer.write_line(f"case status if {range_guard}:")
+            writer.indent()
+            writer.write_line(
+                f'raise {range_class}(response=response, message="Unhandled status code", '
+                "status_code=response.status_code)"
+            )
+            writer.dedent()
 
         # Handle default case
         default_response = next((r for r in op.responses if r.status_code == "default"), None)
@@ -496,6 +515,15 @@ class EndpointResponseHandlerGenerator:
             writer.write_line("case _:  # Default response")
             writer.indent()
             if default_response.content and strategy.return_type != "None":
+                # The default response is only a success value for undeclared 2xx statuses; anything else
+                # (1xx/3xx handed back by a transport that did not raise) is an error, never a return value
+                context.add_import(f"{context.core_package_name}.exceptions", "HTTPError")
+                writer.write_line("if not 200 <= response.status_code < 300:")
+                writer.indent()
+                writer.write_line(
+                    'raise HTTPError(response=response, message="Default error", status_code=response.status_code)'
+                )
+                writer.dedent()
                 self._write_strategy_based_return(writer, strategy, context)
             else:
                 context.add_import(f"{context.core_package_name}.exceptions", "HTTPError")
